@@ -50,6 +50,11 @@ fn vclone<T>(x: &T) -> (r: T) ensures r == *x { unimplemented!() }
 fn vnull_iden() -> (r: DynIden) { unimplemented!() }
 pub struct ConditionHolder { pub contents: ConditionHolderContents }
 pub enum ConditionHolderContents { Empty, Chain(Vec<LogicalChainOper>), Condition(Condition) }
+// #[derive(Default)] on ConditionHolder: contents Empty (#[default]); std::mem::take leaves it
+impl VTake for ConditionHolder {
+    open spec fn is_dflt(&self) -> bool { self.contents is Empty }
+    #[verifier::external_body] fn vtake(&mut self) -> (r: Self) { unimplemented!() }
+}
 impl ConditionHolder {
     // ConditionHolder::new() == Self::default(): contents Empty (verified in unit `cond`)
     #[verifier::external_body]
